@@ -206,6 +206,7 @@ func VH_C07_restart() {
 	net.ba = append(net.ba, b.c.QueryMessage())
 	vhRunNet(net, a, b, 12)
 	vAssume(vAll(a.c.msgState == encrypted, b.c.msgState == encrypted, !net.pending()))
+	vhDistinctKeys(a, b) // (equal exponents on both sides: a 2^-320 event that makes both "low end")
 	// one side ends the session; the other learns of it
 	ender, other := a, b
 	if vChoose("ender", 2) == 1 {
